@@ -137,6 +137,13 @@ CHECKS = {
             "compare ALL attributes in a generic canonical form; stored row == re-saved parameters; WorkflowBuilder deep copy equal "
             "with no persistent id; two loads independent under deep mutation; whole catalogue workflows loaded, copied, re-saved.",
             "bool/int equality as in Python (SQLite stores flags as integers); back-references and runtime queues not compared.", "3/C08"),
+    "C23": ("fault_enumeration", "E3", E3 + "; environment answers of the byte stream (chunk sizes, short reads, every truncation offset, checksum corruption) enumerated",
+            "Real aiotarstream reader + extract_tar_stream over an in-memory stream: archives of 8-11 tree shapes written by GNU tar and "
+            "Python tarfile (gnu/pax/ustar) x every chunk size of the set (thorough 1..1029) x every placement of 1-2 short reads x "
+            "the stream cut after every block boundary +-1 (thorough: every byte) x every header-checksum byte flipped; the writer's "
+            "archives are read back by GNU tar and tarfile; oracle: complete stream => identical tree, damaged stream => raises or "
+            "identical tree, always terminates.",
+            "In-memory StreamWrapper; archives <= 80 KiB; symlinks dereferenced (tar chf, as the connectors do).", "3/C23"),
 }
 
 NOT_YET = "check not built yet in this session (planned, see DESIGN.md section 3); no claim is made"
